@@ -136,6 +136,38 @@ def group_psk_script(rng, i, suite, prov):
     return {"name": f"c13-g{i}", "suite": suite, "members": members, "ops": ops}, ext, dumps, commits
 
 
+def growth_script(rng, i, suite, prov):
+    """A real group that grows past powers of two through commits WITHOUT update path: the secret tree
+    of the new epoch must have the size of the NEW ratchet tree at every member (committer, receivers,
+    joiners), or their per-message keys differ; everybody then reads everybody."""
+    names = ["A", "B", "C", "D", "E", "F"][:5 + rng.below(2)]
+    members = [{"name": n, "provider": prov} for n in names]
+    ops = [{"op": "create", "who": "A"}]
+    inside = ["A"]
+    for n in names:
+        ops.append({"op": "opts", "who": n, "path_required": False, "encrypt_controls": rng.chance(1, 2)}) if n == "A" else None
+    k = 0
+    for n in names[1:]:
+        c = rng.choice(inside)
+        ops.append({"op": "opts", "who": c, "path_required": False, "encrypt_controls": False})
+        ops.append({"op": "kp", "who": n, "id": "k" + n})
+        ops.append({"op": "commit", "who": c, "id": f"g{k}", "add": ["k" + n]})
+        for m in inside:
+            if m != c:
+                ops.append({"op": "deliver", "to": m, "msg": f"g{k}"})
+        ops.append({"op": "apply", "who": c})
+        ops.append({"op": "join", "who": n, "welcome_any": f"g{k}"})
+        inside.append(n)
+        for snd in rng.shuffle(inside)[:3]:
+            aid = f"a{k}{snd}"
+            ops.append({"op": "app", "who": snd, "id": aid, "data": "%02x" % k})
+            for m in inside:
+                if m != snd:
+                    ops.append({"op": "deliver", "to": m, "msg": aid})
+        k += 1
+    return {"name": f"c13-grow{i}", "suite": suite, "members": members, "ops": [o for o in ops if o]}
+
+
 def group_cases(sc, ext, dumps, commits, rs, suite, prov, impl_errors):
     a = SUITE_ALG[suite]
     nh = SUITE_NH[a]
@@ -346,6 +378,16 @@ def main(run, args):
         gc = group_cases(sc, ext, dumps, commits, rs, suite, prov, impl_errors)
         n_group += len(gc)
         cases += gc
+    # ---- real groups growing through commits without a path: every member's secret tree has the new size
+    gritems = [growth_script(rng, i, *[(1, "openssl"), (2, "rustcrypto"), (3, "awslc")][i % 3]) for i in range(4 if quick else 24)]
+    grrecs = run_scripts(gritems, timeout=1500)
+    n_growth = 0
+    for sc, rs in zip(gritems, grrecs):
+        bad = [r for r in rs if r.get("ok") is False or r.get("crash")]
+        n_growth += sum(1 for r in rs if r.get("op") == "deliver" and r.get("ok"))
+        if bad:
+            impl_errors.append({"request": "group growing through path-less commits: a member cannot read another member (secret trees of different size?)", "script": sc["name"], "answer": bad[0], "op": sc["ops"][bad[0]["i"]] if "i" in bad[0] else None})
+    run.cov["growth_deliveries"] = n_growth
     # ---- model
     mism = []
     coq_cases = 0
